@@ -309,8 +309,8 @@ fn check_c04<T: Sc>(ctx: &Ctx, c: &Case, su: &Setup<T>, o: &Outcome<T>) {
     let cj = || case_json(c);
     let fit = &o.fit;
     ctx.with(|s| s.bucket("termination", &format!("{}:{}", if fit.ok { "Ok" } else { "Err" }, term_class(&fit.termination))));
-    if fit.ok != fit.was_successful {
-        ctx.with(|s| s.violate("C04", "ok-iff-successful", cj(), format!("fit returned {} but termination {} has was_successful() = {}", if fit.ok { "Ok" } else { "Err" }, fit.termination, fit.was_successful)));
+    if fit.ok != fit.report_successful || fit.was_successful != fit.report_successful {
+        ctx.with(|s| s.violate("C04", "ok-iff-successful", cj(), format!("fit returned {} but termination {} has was_successful() = {} (FitResult::was_successful() = {})", if fit.ok { "Ok" } else { "Err" }, fit.termination, fit.report_successful, fit.was_successful)));
     }
     // evaluation budget of the configuration the caller supplied
     let budget = (c.solver.patience * (c.fam.p() + 1)) as u64;
